@@ -33,6 +33,17 @@ Theorem C07_tdb_order_preserved : forall ca cb a b,
   Rabs (ca - (a + delta_tdb_R a)) <= 30 / 1000000000 -> Rabs (cb - (b + delta_tdb_R b)) <= 30 / 1000000000 ->
   100 / 1000000000 < b - a -> ca < cb.
 Proof. exact (order_preserved delta_tdb_R L_TDB L_TDB_small delta_tdb_lipschitz). Qed.
+(* an epoch given in ET read in TDB (or the reverse): same order of the readings, and computed conversions keep it beyond 100 ns *)
+Theorem C07_et_tdb_same_order : forall a b, a + delta_et_R a < b + delta_et_R b <-> a + delta_tdb_R a < b + delta_tdb_R b.
+Proof. exact (chain_same_order delta_et_R delta_tdb_R L_ET L_TDB L_ET_small L_TDB_small delta_et_lipschitz delta_tdb_lipschitz). Qed.
+Theorem C07_et_to_tdb_order_preserved : forall ca cb a b,
+  Rabs (ca - (a + delta_tdb_R a)) <= 30 / 1000000000 -> Rabs (cb - (b + delta_tdb_R b)) <= 30 / 1000000000 ->
+  100 / 1000000000 < (b + delta_et_R b) - (a + delta_et_R a) -> ca < cb.
+Proof. exact (chain_order_preserved delta_et_R delta_tdb_R L_ET L_TDB L_ET_small L_TDB_small delta_et_lipschitz delta_tdb_lipschitz). Qed.
+Theorem C07_tdb_to_et_order_preserved : forall ca cb a b,
+  Rabs (ca - (a + delta_et_R a)) <= 30 / 1000000000 -> Rabs (cb - (b + delta_et_R b)) <= 30 / 1000000000 ->
+  100 / 1000000000 < (b + delta_tdb_R b) - (a + delta_tdb_R a) -> ca < cb.
+Proof. exact (chain_order_preserved delta_tdb_R delta_et_R L_TDB L_ET L_TDB_small L_ET_small delta_tdb_lipschitz delta_et_lipschitz). Qed.
 Theorem C07_et_insensitive_to_t : forall a b, Rabs (a - b) <= 1 / 100 -> Rabs (delta_et_R a - delta_et_R b) <= 4 / 1000000000000.
 Proof. exact (delta_insensitive delta_et_R L_ET L_ET_small delta_et_lipschitz). Qed.
 Theorem C07_tdb_insensitive_to_t : forall a b, Rabs (a - b) <= 1 / 100 -> Rabs (delta_tdb_R a - delta_tdb_R b) <= 4 / 1000000000000.
